@@ -149,8 +149,28 @@ Fails(c) ==
   ELSE UNION {QueryFails(r.d, c.q[i]) : i \in DOMAIN c.q}
        \cup ValFails(r.d, c.val) \cup ExpFails(r.d, c)
 
+\* for replays (GROUPS_EXPLAIN=1): what the specification expects of every group
+WalkText(w) == [i \in DOMAIN w |-> w[i].id \o w[i].o]
+Explain(c) ==
+  LET D == Run(c.ev, 1, <<>>).d IN
+  [i \in DOMAIN c.q |->
+     LET id == c.q[i].id
+         rt == LineNamed(D, id).rt IN
+     IF rt = "O" THEN
+       LET cp == CapturedPath(D, id)
+           outs == Outcomes(D, id) IN
+       <<id, "strict reading:", IF cp.ok THEN WalkText(cp.walk) ELSE <<cp.kind>>,
+         "also accepted:", {WalkText(r.w) : r \in {x \in outs : x.ok}},
+         IF \E r \in outs : ~r.ok THEN "or a gfapy.Error" ELSE "no error">>
+     ELSE IF rt = "U" THEN
+       <<id, "segments:", SegsMentioned(D, id), "edges:", EdgesWithin(D, SegsMentioned(D, id)),
+         IF SetMayFail(D, id) THEN "or a gfapy.Error" ELSE "no error",
+         IF SetMayAnswer(D, id) THEN "" ELSE "error required">>
+     ELSE <<id, "no such group">>]
+
 Init == n \in 1..Len(Cases) /\ done = FALSE
 Next == /\ ~done /\ done' = TRUE /\ UNCHANGED n
+        /\ (IF IOEnv.GROUPS_EXPLAIN = "1" THEN PrintT("EXPECT " \o ToString(Explain(Cases[n]))) ELSE TRUE)
         /\ LET f == Fails(Cases[n]) IN
            IF f = {} THEN TRUE ELSE PrintT(<<"REJECT", Cases[n].id, f>>)
 Spec == Init /\ [][Next]_vars
